@@ -505,6 +505,25 @@ def cmp4(p, res):
         if not fills:
             res.bad("CMP-4", fkey, "no-mask-fill", "%s never regenerates the mask" % fkey, site=f.where())
             continue
+        # the regeneration is unconditional: every returning path of the expander runs the mask fill (directly or through its column loop)
+        from . import sc as _sc
+        g_f = CFG(f)
+        paths_f = _sc.returning_paths(f, g_f, cap=512) or []
+        drivers = set()
+        for b, bi, t in fills:
+            if b is f:
+                drivers.add(bi)
+            else:
+                for b2, t2 in f.calls():
+                    if b.uid in f.callee_closures(t2):
+                        drivers.add(b2)
+        skipped = [pth for pth in paths_f if not any(x in drivers for x in pth)]
+        if not paths_f:
+            res.undec("CMP-4", "%s: paths not enumerable" % fkey)
+        elif skipped:
+            res.bad("CMP-4", fkey, "mask-fill-conditional", "%s has a returning path that does not regenerate the mask from the stored seed: for some stored seed or shape the expansion is not what encryption produced" % fkey, site=f.where())
+        else:
+            res.ok("CMP-4", {"fn": fkey, "mask_fill": "on every returning path (%d)" % len(paths_f)})
         for b, bi, t in fills:
             sym_f = Sym(f, Flow(f))
             if b is f:
